@@ -379,8 +379,9 @@ def cfgRdShort : Config := rd [.feed 5, .start 0 8, .await 0, .start 1 8, .await
 /-- cancel while parked (T2), then the descriptor is reused by a later read -/
 def cfgRdCancelParked : Config :=
   rd [.start 0 8, .fence, .await 0, .join2, .feed 4, .start 1 8, .await 1] [.cancel 0] 2 [] 2
-/-- data and cancellation race -/
-def cfgRdCancelRace : Config := rd [.start 0 8, .feed 5, .await 0, .join2] [.cancel 0] 1 []
+/-- data and cancellation race; the final fence makes sure that whatever the cancellation put on the
+    context's queue has run before the scenario ends -/
+def cfgRdCancelRace : Config := rd [.start 0 8, .feed 5, .await 0, .join2, .fence] [.cancel 0] 1 []
 /-- stop requested before the operation is started; the descriptor is used again afterwards -/
 def cfgRdCancelBeforeStart : Config :=
   rd [.cancel 0, .start 0 8, .await 0, .feed 4, .fence, .start 1 8, .await 1] [] 0 [] 2
